@@ -46,7 +46,7 @@ def render_expr(e, ind=1):
     if k == 'let':
         return 'let %s = %s\n%s%s' % (e[1], render_expr(e[2], ind), pad, render_expr(e[3], ind))
     if k == 'lettuple':
-        return 'let (%s) = %s\n%s%s' % (', '.join(e[1]), render_expr(e[2], ind), pad, render_expr(e[3], ind))
+        return 'let %s = %s\n%s%s' % (render_pat(e[1]), render_expr(e[2], ind), pad, render_expr(e[3], ind))
     if k == 'assign':
         return '%s = %s\n%s%s' % (e[1], render_expr(e[2], ind), pad, render_expr(e[3], ind))
     if k == 'tuple':
@@ -74,6 +74,19 @@ def render_expr(e, ind=1):
     if k == 'pipe':
         return '(%s |> %s)' % (render_expr(e[1], ind), e[2])
     raise ValueError(k)
+
+
+def render_pat(names):
+    """tuple pattern; a nested list is a nested tuple pattern"""
+    return '(%s)' % ', '.join(render_pat(n) if isinstance(n, (list, tuple)) else n for n in names)
+
+
+def bind_pat(env, names, v):
+    for n, x in zip(names, v):
+        if isinstance(n, (list, tuple)):
+            bind_pat(env, n, x)
+        else:
+            env[n] = Cell(x)
 
 
 def render_block(e, ind, force=False):
@@ -132,6 +145,12 @@ class RefEval(object):
 
     def site(self, e):
         return id(e)
+
+    def zero_shape(self, n):
+        """self_arity: 1 = scalar, k = flat k-tuple, a list = nested tuple shape, e.g. [1, [1, 1]]"""
+        if isinstance(n, (list, tuple)):
+            return tuple(self.zero_shape(x) for x in n)
+        return self.fp(0.0) if n == 1 else tuple(self.fp(0.0) for _ in range(n))
 
     def zero_like(self, v):
         if isinstance(v, tuple):
@@ -212,8 +231,7 @@ class RefEval(object):
         if k == 'lettuple':
             v = self.eval(e[2], env, path + (('let', self.site(e)),), frame)
             env2 = dict(env)
-            for n, x in zip(e[1], v):
-                env2[n] = Cell(x)
+            bind_pat(env2, e[1], v)
             return self.eval(e[3], env2, path, frame)
         if k == 'assign':
             v = self.eval(e[2], env, path + (('asg', self.site(e)),), frame)
@@ -248,7 +266,7 @@ class RefEval(object):
             v = self.state.get(key)
             if v is None:
                 n = self.prog.get('self_arity', {}).get(frame['fname'], 1)
-                v = self.fp(0.0) if n == 1 else tuple(self.fp(0.0) for _ in range(n))
+                v = self.zero_shape(n)
             return v
         if k == 'mem':
             x = self.eval(e[1], env, path + (('m', self.site(e)),), frame)
